@@ -1219,6 +1219,36 @@ def rule_r14(repo, run):
     run.floor(R, "declarations of callback interfaces", n, 2)
 
 
+def rule_r15(repo, run):
+    R = run.rule("C04.R15", "when Fortran binds to the C function directly (no C wrapper is written) the binding label is the name "
+                            "written in the declaration, not the `name` attribute that renames the wrapper")
+    wc, dm = repo.module("wrapc"), repo.module("declast")
+    # is Declaration.name attribute-aware?
+    gn = dm.func("Declaration.get_name")
+    defaults = dict(zip([a.arg for a in gn.args.args][-len(gn.args.defaults):], gn.args.defaults)) if gn.args.defaults else {}
+    aware = isinstance(defaults.get("use_attr"), ast.Constant) and defaults["use_attr"].value is True and \
+        any(isinstance(x, ast.Subscript) and pyflow.const_str(x.slice) == "name" and "attrs" in ast.unparse(x.value) for x in ast.walk(gn))
+    prop = any(isinstance(a, ast.Assign) and pyflow.is_name(a.targets[0], "name") and isinstance(a.value, ast.Call)
+               and pyflow.is_name(a.value.func, "property") and a.value.args and pyflow.is_name(a.value.args[0], "get_name")
+               for a in dm.cls("Declaration").body)
+    wfn = wc.func("Wrapc.wrap_function")
+    sets = [a for a in ast.walk(wfn) if isinstance(a, ast.Assign) and isinstance(a.targets[0], ast.Attribute)
+            and a.targets[0].attr == "C_name" and "ast" in ast.unparse(a.value)]
+    if not sets:
+        raise AnalysisError("C04.R15: the direct binding (`fmt_func.C_name = <declared name>`) of Wrapc.wrap_function was not found")
+    for a in sets:
+        v = a.value
+        uses_property = isinstance(v, ast.Attribute) and v.attr == "name" and not (isinstance(v.value, ast.Attribute) and v.value.attr == "declarator")
+        uses_getter_default = isinstance(v, ast.Call) and isinstance(v.func, ast.Attribute) and v.func.attr == "get_name" and \
+            not any((k.arg == "use_attr" and isinstance(k.value, ast.Constant) and k.value.value is False) for k in v.keywords) and \
+            not (v.args and isinstance(v.args[0], ast.Constant) and v.args[0].value is False)
+        bad = aware and ((uses_property and prop) or uses_getter_default)
+        run.check(R, "wrapc.Wrapc.wrap_function:C_name<-%s" % ast.unparse(v)[:40], not bad,
+                  "the label of the direct binding is `%s`, which returns the +name attribute when there is one: "
+                  "`void foo(int a) +name(bar)` in a C library is bound with bind(C, name=\"bar\") and does not link"
+                  % ast.unparse(v), wc.loc(a))
+
+
 def run(repo, run, tier):
     tables.check_model_assumptions(repo)
     table = tables.StatementTable(repo, "statements", "fc_statements")
@@ -1238,6 +1268,7 @@ def run(repo, run, tier):
     rule_r12(repo, run)
     rule_r13(repo, run)
     rule_r14(repo, run)
+    rule_r15(repo, run)
     run.assumptions.extend([
         "LP64 / ISO_C_BINDING interoperability table in sa/interop.py",
         "table semantics model (base/mixin/language selection) mirrors statements.update_stmt_tree; "
